@@ -216,10 +216,9 @@ theorem handle_inner_iff (P : Params) (user stored : Bytes) (header : List Bytes
     have hx := (Xb_iff P stored p).mpr h7
     simp [h1, h2, h3, h4, hsp, hx]
 
-theorem authEnabled_nonempty (user : Bytes) (h : user ≠ []) : authEnabled (some user) = true := by
-  cases user with
-  | nil => exact absurd rfl h
-  | cons x r => simp [authEnabled, mkServers_g2]
+/-- `if username is not None:` (fix F18): a configured username, *empty or not*, enables the wrapper -/
+theorem authEnabled_some (user : Bytes) : authEnabled (some user) = true := by
+  simp [authEnabled, mkServers_g2]
 
 theorem dispatch_all_wrapped : ∀ n ∈ dispatch_order, wrapped_when_auth.contains n = true := by decide
 
@@ -242,7 +241,7 @@ theorem all_handlers_wrapped : ∀ h ∈ installed, h ∈ wrapped_when_auth := b
     dictionary is exactly the configured pair -/
 theorem chain_is_the_installed_one :
     dispatch_order = installed.reverse ∧ install_at_front = true ∧ install_extra_args = false ∧
-    users_dict = "{username: password}" ∧ wrap_guard = "username" ∧ dispatch_first_match_returns = true := by decide
+    users_dict = "{username: password}" ∧ wrap_guard = "username is not None" ∧ dispatch_first_match_returns = true := by decide
 
 /-- **users_built_per_server.**  In `make_http_servers` the only statement that binds or mutates
     `users` is `users = {username: password}`, inside the loop over the server configurations and
@@ -251,7 +250,7 @@ theorem chain_is_the_installed_one :
     the loop, or filling a shared one, changes this regenerated table.) -/
 theorem users_built_per_server :
     users_per_server = true ∧
-    users_bindings = [("users = {username: password}", "loop/if:username")] ∧
+    users_bindings = [("users = {username: password}", "loop/if:username is not None")] ∧
     cred_sources = [("username", "config['username']", "loop"), ("password", "config['password']", "loop")] ∧
     server_loop = ("config", "options.server_configs") ∧
     all_built_in_loop = true := by decide
@@ -263,11 +262,11 @@ theorem modelled_source_shape :
     split_sep = [58] ∧ split_max = 1 ∧ authorize_inside_try = false ∧ decode_handler_is_bare_except = true ∧
     sha_prefix.length = 5 := by decide
 
-/-- **served_iff_authorized.**  With a non-empty configured username, for every request — every
+/-- **served_iff_authorized.**  With a configured username (empty or not, fix F18), for every request — every
     header list, every path-matching behaviour of the handlers, every base64/UTF-8/SHA-1 function —
     some handler's `handle_request` runs **iff** a handler matches the request and the request
     carries exactly the configured credentials.  The handler then sees `auth_info = [user, p]`. -/
-theorem served_iff_authorized (P : Params) (user stored : Bytes) (hne : user ≠ [])
+theorem served_iff_authorized (P : Params) (user stored : Bytes)
     (hits : String → Bool) (header : List Bytes) :
     (serve P (some user) (some stored) hits header).invoked.isSome = true ↔
       (SomeHandlerMatches hits ∧ Authorized P user stored header) := by
@@ -281,7 +280,7 @@ theorem served_iff_authorized (P : Params) (user stored : Bytes) (hne : user ≠
   | some name =>
     obtain ⟨hmem, hhit⟩ := found_mem hf
     have hw : isWrapped (some user) name = true := by
-      simp only [isWrapped, authEnabled_nonempty user hne, dispatch_all_wrapped name hmem, Bool.and_self]
+      simp only [isWrapped, authEnabled_some user, dispatch_all_wrapped name hmem, Bool.and_self]
     simp only [hw, if_true, Option.getD_some]
     constructor
     · intro h
@@ -307,10 +306,10 @@ theorem serveAt_own_section (P : Params) (secs : List Section) (i : Nat) (s : Se
 
 /-- **served_iff_authorized, per server.**  With any number of server sections, of any kinds and
     with any credentials (or none) on the others: a request to the server of section `i`, whose
-    username is non-empty, runs a handler **iff** a handler matches and the request carries
+    username is set, runs a handler **iff** a handler matches and the request carries
     exactly section `i`'s own credentials. -/
 theorem served_iff_authorized_per_server (P : Params) (secs : List Section) (i : Nat)
-    (user stored : Bytes) (hs : secs[i]? = some ⟨some user, some stored⟩) (hne : user ≠ [])
+    (user stored : Bytes) (hs : secs[i]? = some ⟨some user, some stored⟩)
     (hits : String → Bool) (header : List Bytes) :
     (∃ a, serveAt P secs i hits header = some a ∧ a.invoked.isSome = true) ↔
       (SomeHandlerMatches hits ∧ Authorized P user stored header) := by
@@ -319,12 +318,12 @@ theorem served_iff_authorized_per_server (P : Params) (secs : List Section) (i :
   · rintro ⟨a, ha, hi⟩
     simp only [Option.some.injEq] at ha
     subst ha
-    exact (served_iff_authorized P user stored hne hits header).mp hi
+    exact (served_iff_authorized P user stored hits header).mp hi
   · intro h
-    exact ⟨_, rfl, (served_iff_authorized P user stored hne hits header).mpr h⟩
+    exact ⟨_, rfl, (served_iff_authorized P user stored hits header).mpr h⟩
 
 /-- the credentials handed to the handler are the configured user and the password received -/
-theorem served_with_configured_user (P : Params) (user stored : Bytes) (hne : user ≠ [])
+theorem served_with_configured_user (P : Params) (user stored : Bytes)
     (hits : String → Bool) (header : List Bytes) (name : String) (ai : Option (Bytes × Bytes))
     (h : (serve P (some user) (some stored) hits header).invoked = some (name, ai)) :
     ∃ p, ai = some (user, p) ∧ dispatch_order.find? hits = some name := by
@@ -334,7 +333,7 @@ theorem served_with_configured_user (P : Params) (user stored : Bytes) (hne : us
   | some n =>
     obtain ⟨hmem, _⟩ := found_mem hf
     have hw : isWrapped (some user) n = true := by
-      simp only [isWrapped, authEnabled_nonempty user hne, dispatch_all_wrapped n hmem, Bool.and_self]
+      simp only [isWrapped, authEnabled_some user, dispatch_all_wrapped n hmem, Bool.and_self]
     rw [hf] at h
     simp only [hw, if_true, Option.getD_some] at h
     cases hr : handleRequest P [(user, stored)] header with
@@ -351,28 +350,28 @@ theorem served_with_configured_user (P : Params) (user stored : Bytes) (hne : us
 /-- **refused_has_no_effect.**  Without exactly the configured credentials no handler's
     `handle_request` runs at all — whatever the path, method or header: no RPC method runs, no
     log or file byte is produced (those exist only inside the handlers). -/
-theorem refused_has_no_effect (P : Params) (user stored : Bytes) (hne : user ≠ [])
+theorem refused_has_no_effect (P : Params) (user stored : Bytes)
     (hits : String → Bool) (header : List Bytes) (h : ¬ Authorized P user stored header) :
     (serve P (some user) (some stored) hits header).invoked = none := by
   cases hi : (serve P (some user) (some stored) hits header).invoked with
   | none => rfl
   | some x =>
     exfalso
-    have := (served_iff_authorized P user stored hne hits header).mp (by rw [hi]; rfl)
+    have := (served_iff_authorized P user stored hits header).mp (by rw [hi]; rfl)
     exact h this.2
 
 /-- … in particular the credentials of *another* section do not open this server -/
 theorem other_sections_credentials_refused (P : Params) (secs : List Section) (i : Nat)
-    (user stored : Bytes) (hs : secs[i]? = some ⟨some user, some stored⟩) (hne : user ≠ [])
+    (user stored : Bytes) (hs : secs[i]? = some ⟨some user, some stored⟩)
     (hits : String → Bool) (header : List Bytes) (hnot : ¬ Authorized P user stored header) :
     ∃ a, serveAt P secs i hits header = some a ∧ a.invoked = none := by
   rw [serveAt_own_section P secs i _ hits header hs]
-  exact ⟨_, rfl, refused_has_no_effect P user stored hne hits header hnot⟩
+  exact ⟨_, rfl, refused_has_no_effect P user stored hits header hnot⟩
 
 /-- **refusal_status.**  A request that matches a handler but is not authorised is answered
     401 with the Basic challenge, or 400 (undecodable cookie), or 500 (decoded text without a
     colon: the exception path) — never passed on. -/
-theorem refusal_status (P : Params) (user stored : Bytes) (hne : user ≠ [])
+theorem refusal_status (P : Params) (user stored : Bytes)
     (hits : String → Bool) (header : List Bytes) (hm : SomeHandlerMatches hits)
     (h : ¬ Authorized P user stored header) :
     let r := serve P (some user) (some stored) hits header
@@ -380,8 +379,8 @@ theorem refusal_status (P : Params) (user stored : Bytes) (hne : user ≠ [])
       ((r.status = some 401 ∧ r.challenge = true) ∨ (r.status = some 400 ∧ r.challenge = false) ∨
        (r.status = some 500 ∧ r.challenge = false)) := by
   intro r
-  refine ⟨refused_has_no_effect P user stored hne hits header h, ?_⟩
-  have hni := refused_has_no_effect P user stored hne hits header h
+  refine ⟨refused_has_no_effect P user stored hits header h, ?_⟩
+  have hni := refused_has_no_effect P user stored hits header h
   show (r.status = some 401 ∧ r.challenge = true) ∨ _
   simp only [r] at *
   unfold serve at hni ⊢
@@ -393,7 +392,7 @@ theorem refusal_status (P : Params) (user stored : Bytes) (hne : user ≠ [])
   | some name =>
     obtain ⟨hmem, _⟩ := found_mem hf
     have hw : isWrapped (some user) name = true := by
-      simp only [isWrapped, authEnabled_nonempty user hne, dispatch_all_wrapped name hmem, Bool.and_self]
+      simp only [isWrapped, authEnabled_some user, dispatch_all_wrapped name hmem, Bool.and_self]
     rw [hf] at hni
     simp only [hw, if_true, Option.getD_some] at hni ⊢
     cases hr : handleRequest P [(user, stored)] header with
@@ -404,7 +403,7 @@ theorem refusal_status (P : Params) (user stored : Bytes) (hne : user ≠ [])
 
 /-- the two most common refusals, exactly: no Authorization line at all, or another scheme ⇒ 401
     with the challenge -/
-theorem absent_or_other_scheme_gets_401 (P : Params) (user stored : Bytes) (hne : user ≠ [])
+theorem absent_or_other_scheme_gets_401 (P : Params) (user stored : Bytes)
     (hits : String → Bool) (header : List Bytes) (hm : SomeHandlerMatches hits)
     (h : authLine header = none ∨ ∃ s c, authLine header = some (s, c) ∧ lowerAscii s ≠ basicWord) :
     serve P (some user) (some stored) hits header = ⟨some 401, true, none⟩ := by
@@ -417,7 +416,7 @@ theorem absent_or_other_scheme_gets_401 (P : Params) (user stored : Bytes) (hne 
   | some name =>
     obtain ⟨hmem, _⟩ := found_mem hf
     have hw : isWrapped (some user) name = true := by
-      simp only [isWrapped, authEnabled_nonempty user hne, dispatch_all_wrapped name hmem, Bool.and_self]
+      simp only [isWrapped, authEnabled_some user, dispatch_all_wrapped name hmem, Bool.and_self]
     simp only [hw, if_true, Option.getD_some]
     have : handleRequest P [(user, stored)] header = .unauthorized := by
       unfold handleRequest
@@ -437,14 +436,21 @@ theorem no_handler_404 (P : Params) (user stored : Option Bytes) (hits : String 
   | none => rfl
   | some name => exact absurd ⟨name, (found_mem hf).1, (found_mem hf).2⟩ h
 
-/-! ### F18 (open): an empty configured username disables authentication -/
+/-! ### F18 (fixed): an empty configured username no longer disables authentication -/
 
-/-- `username=` (empty) with any password: `if username:` is false, nothing is wrapped, and every
-    request that matches a handler is served without credentials.  This is why
-    `served_iff_authorized` carries `user ≠ []`. -/
-theorem f18_empty_username_disables_auth (P : Params) (stored : Option Bytes) (hits : String → Bool)
+/-- regression statement of F18.  `username=` (empty) with a password used to fail `if username:` and
+    leave every handler unwrapped; with `if username is not None:` the section is authenticated like
+    any other: a handler runs iff the request carries the credentials `:<password>`. -/
+theorem f18_empty_username_is_authenticated (P : Params) (stored : Bytes) (hits : String → Bool)
+    (header : List Bytes) :
+    (serve P (some []) (some stored) hits header).invoked.isSome = true ↔
+      (SomeHandlerMatches hits ∧ Authorized P [] stored header) :=
+  served_iff_authorized P [] stored hits header
+
+/-- a section with neither option is unauthenticated by design: nothing is wrapped -/
+theorem no_credentials_configured_is_open (P : Params) (hits : String → Bool)
     (header : List Bytes) (name : String) (h : dispatch_order.find? hits = some name) :
-    (serve P (some []) stored hits header).invoked = some (name, none) := by
+    (serve P none none hits header).invoked = some (name, none) := by
   unfold serve
   rw [h]
   simp [isWrapped, authEnabled, mkServers_g2]
